@@ -9,6 +9,7 @@ Part A  {% html_attrs %}: rendered as `<div {% html_attrs ... %}>` and parsed ba
    A3 pairs  : two keys at once (cross-talk between keys), both interleavings of their extras.
    A4 names  : names that are not legal HTML attribute names - only "exactly one <div> start tag, nothing
                else, the well-named neighbour attribute intact" is asserted.
+   After every render the objects handed to the tag (defaults / attrs / spread operands) must be unchanged.
    Model: final = defaults; final.update(attrs); every extra keyword, in tag order, is appended to the same-named
    entry as str(cur) + " " + str(value) (or sets it); None / False omitted, True bare, else name="escaped value".
 Part B  slot content handed to Component.render: content kind x string x every chain of <= 3 hops
@@ -48,6 +49,7 @@ Agnostic / excluded corners
 """
 from __future__ import annotations
 
+import copy
 import html as _html
 import re
 from collections import Counter
@@ -247,12 +249,18 @@ def check_attrs(case):
     appended = {k for k in dict(extras) if k in dmap or k in amap or sum(1 for x in extras if x[0] == k) > 1}
     klass = "agnostic-append" if agnostic else ("append" if appended else ("override" if set(dmap) & set(amap) else "plain"))
     nontrivial = bool(dmap or amap or extras)
+    before = copy.deepcopy(ctx)
     try:
         out = _template(src).render(Context(ctx))
     except Exception as e:
         if agnostic:
             return None, "", ("exc-agnostic",), klass, nontrivial
         return f"exception:{type(e).__name__}", f"raised {type(e).__name__}: {e}", ("exc", type(e).__name__), klass, nontrivial
+    # the mappings handed to the tag (defaults / attrs / spread operands) belong to the caller: a tag that merges
+    # into them would emit data it was not given the next time the same object is passed
+    if ctx != before or any(type(ctx[k]) is not type(before[k]) for k in ctx):
+        changed = sorted(k for k in ctx if ctx[k] != before[k])
+        return "input-mutated", f"the tag changed its input object(s) {changed}: {[before[k] for k in changed]!r} -> {[ctx[k] for k in changed]!r}", out, klass, nontrivial
     if not isinstance(out, SafeData):
         return "not-safe", f"output {out!r} is not marked safe (would be escaped again by the template)", out, klass, nontrivial
     ev = parse_events(out)
